@@ -197,6 +197,16 @@ fn check(e: &Export, obs: &mut Obs) -> Verdict {
     // (5) ordering: sorted output is ordered by settlement date; --no-sort keeps trades in row order
     let mut sorted = txs.clone(); sorted.sort();
     if sorted.windows(2).any(|w| w[0].settlement_date > w[1].settlement_date) { return Verdict::Fail(format!("sorted output not ordered by settlement date\n{}", show())); }
+    // ... and, within one settlement date and time, every USD.FX purchase (dividends included) comes before every USD.FX sale, so that
+    // acb, which processes the rows in this order, never sees a day's outflow before the inflow that funds it
+    let fx_sorted: Vec<&acb::peripheral::broker::BrokerTx> = sorted.iter().filter(|t| t.security.ends_with(".FX")).collect();
+    for (i, a) in fx_sorted.iter().enumerate() {
+        if a.action != acb::portfolio::TxAction::Sell { continue; }
+        if let Some(b) = fx_sorted[i + 1..].iter().find(|b| b.action == acb::portfolio::TxAction::Buy && b.settlement_date == a.settlement_date && b.settlement_date_and_time == a.settlement_date_and_time) {
+            return Verdict::Fail(format!("sorted output puts the USD.FX sale of {} (row {}) before the USD.FX purchase of {} (row {}) settling at the same time {}\n{}", a.num_shares, a.row_num, b.num_shares, b.row_num, a.settlement_date, show()));
+        }
+    }
+    if fx_sorted.iter().any(|a| a.action == acb::portfolio::TxAction::Sell && fx_sorted.iter().any(|b| b.action == acb::portfolio::TxAction::Buy && b.settlement_date == a.settlement_date && b.memo.to_lowercase().contains("div"))) { obs.class("usd-dividend-and-usd-outflow-settling-the-same-day"); }
     let trade_rows: Vec<u32> = txs.iter().filter(|t| !t.security.ends_with(".FX")).map(|t| t.row_num).collect();
     if trade_rows.windows(2).any(|w| w[0] > w[1]) { return Verdict::Fail(format!("unsorted output does not keep the row order of trades\n{}", show())); }
     // (4) every emitted row is accepted by acb (row level)
@@ -296,7 +306,7 @@ fn xlsx_end_to_end(tier: Tier, seed: u64, idx: u64, of: u64, stats: &mut Stats) 
 }
 
 pub fn def() -> PropDef {
-    let mut d = PropDef::new("C18", "well-formed Questrade activity exports: 1-25 activities over BUY, SELL, DIS, LIQ, DIV, FXT pairs (either leg first) and the documented ignored codes; margin / TFSA / RRSP / RESP accounts (type spelled in upper, lower and mixed case); CAD and USD; signed quantities and commissions as Questrade writes them; the H038778 alias; x column layout (permutation, extra named columns, one or two blank-headed columns, a column headed by a number or a boolean cell, numeric vs string cells). In memory through office::Range -> sheet_to_txs, and end to end for a sample (real .xlsx via rust_xlsxwriter -> run_with_args -> CSV, with --no-fx / --security / --account / --usd-exchange-rate). Oracles: multiset of emitted rows = the generator's own record of trade activities and FX rows (dates, |qty|, price, |commission|, currency, registered affiliate, implied FXT rate); signed USD.FX total = USD cash flow (exact); output independent of the layout; sorted output ordered by settlement date; every row accepted by acb's parser, rate loader and Tx conversion. Non-trivial = export with a USD trade and an FXT pair, or a layout with a blank or non-text header cell. Distinct = distinct case content.");
+    let mut d = PropDef::new("C18", "well-formed Questrade activity exports: 1-25 activities over BUY, SELL, DIS, LIQ, DIV, FXT pairs (either leg first) and the documented ignored codes; margin / TFSA / RRSP / RESP accounts (type spelled in upper, lower and mixed case); CAD and USD; signed quantities and commissions as Questrade writes them; the H038778 alias; x column layout (permutation, extra named columns, one or two blank-headed columns, a column headed by a number or a boolean cell, numeric vs string cells). In memory through office::Range -> sheet_to_txs, and end to end for a sample (real .xlsx via rust_xlsxwriter -> run_with_args -> CSV, with --no-fx / --security / --account / --usd-exchange-rate). Oracles: multiset of emitted rows = the generator's own record of trade activities and FX rows (dates, |qty|, price, |commission|, currency, registered affiliate, implied FXT rate); signed USD.FX total = USD cash flow (exact); output independent of the layout; sorted output ordered by settlement date and, within one settlement time, USD.FX purchases (dividends included) before USD.FX sales; every row accepted by acb's parser, rate loader and Tx conversion. Non-trivial = export with a USD trade and an FXT pair, or a layout with a blank or non-text header cell. Distinct = distinct case content.");
     d.assumptions = vec!["ledger-level acceptance (e.g. USD.FX over-sale) is not the converter's contract; rows are checked for row-level acceptance", "numeric cells go through the same f64 -> Decimal conversion on both sides"];
     d.subs.push(Box::new(Sub::<Export> { name: "sheet", cases_quick: 20_000, cases_thorough: 800_000, strategy: Box::new(|_| export_strategy()), to_json: Export::to_json, from_json: Export::from_json, check }));
     d.extra = Some(xlsx_end_to_end);
